@@ -186,7 +186,7 @@ class TlcResult:
 
 _RE_STATES = re.compile(r"(\d+) states generated, (\d+) distinct states found")
 _RE_DEPTH = re.compile(r"The depth of the complete state graph search is (\d+)")
-_RE_COV = re.compile(r"^<(\w+) line \d+, col \d+ to line \d+, col \d+ of module (\w+)>: (\d+):(\d+)", re.M)
+_RE_COV = re.compile(r"^<(\w+) line \d+, col \d+ to line \d+, col \d+ of module (\w+)(?: \([\d ]+\))?>: (\d+):(\d+)", re.M)
 _RE_INV = re.compile(r"Error: Invariant (\w+) is violated")
 _RE_PROP = re.compile(r"Error: (Action property|Temporal properties?) (\w+)? ?(?:was|were|is) violated")
 _RE_GEN = re.compile(r'^<<"GEN", "(.*)">>$', re.M)
